@@ -197,19 +197,48 @@ class ObjectCollisions(Bounded):
         ['foo.c', 'foo.test.c', 'foo.test.x.c'], ['x.y.c', 'x.y.z.c', 'x.c'], ['a/foo.c', 'b/foo.c', 'foo.c'],
         ['dir.d/foo.c', 'dir/foo.c', 'dir.d/foo.bar.c'], ['a b.c', 'a.b.c', 'a/b.c'], ['../src2/foo.c', 'foo.c', 'sub/../bar.c'],
         ['./~/a.c', 'a.c'],       # a directory literally named `~`
+        ['parse/scan.l', 'config/scan.l', 'scan.l'],      # sources that are first turned into C by a generator (lex)
     ]
+    # generated_sources(): (inputs, language)
+    GENERATED = [(['x/scan.l', 'y/scan.l', 'scan.l'], None), (['gui/widget.hpp', 'net/widget.hpp', 'widget.hpp'], 'qtmoc'),
+                 (['a/res.qrc', 'b/res.qrc'], None), (['a/form.ui', 'b/form.ui', 'form.ui'], None)]
 
     def native_inputs(self, case, alphabet, maxlen, rng, extra=0):
         for i in range(len(self.SETS)):
             for where in ('', 'sub'):
                 yield {'sources': i, 'script_dir': where}
+        for i in range(len(self.GENERATED)):
+            for where in ('', 'sub'):
+                yield {'generated': i, 'script_dir': where}
 
     def native_check(self, case, raw):
         from contracts.scripts import run_configure
-        srcs = self.SETS[raw['sources']]
         d = raw['script_dir']
+        if 'generated' in raw:
+            import posixpath
+            srcs, lang = self.GENERATED[raw['generated']]
+            body = ("gen = generated_sources(%r%s)\n"
+                    "env.trace.append(('gens', [(str(g.path.root), g.path.suffix) for g in gen]))\n"
+                    % (srcs, ', lang=%r' % lang if lang else ''))
+            files = {'build.bfg': 'submodule(%r)\n' % d, d + '/build.bfg': body} if d else {'build.bfg': body}
+            for s_ in srcs:
+                files[posixpath.join(d, s_)] = ''
+            trace = run_configure(files, [])
+            if any(t[0] == 'FAILED' for t in trace):
+                return self.fail(case, raw, 'configure_succeeds', error=[t[1] for t in trace if t[0] == 'FAILED'][0][-500:])
+            gens = [g for t in trace if t[0] == 'gens' for g in t[1]]
+            if len(gens) != len(srcs):
+                return self.fail(case, raw, 'one_generated_source_per_input', generated=gens)
+            if any(r != 'Root.builddir' or s_.startswith('..') for r, s_ in gens):
+                return self.fail(case, raw, 'generated_sources_stay_in_the_build_directory', generated=sorted(gens))
+            if len(set(gens)) != len(gens):
+                return self.fail(case, raw, 'distinct_inputs_get_distinct_generated_sources', generated=sorted(gens))
+            return True
+        srcs = self.SETS[raw['sources']]
         body = ("t = executable('prog', files=%r)\nu = executable('other/prog2', files=%r)\n"
                 "for x in (t, u):\n    env.trace.append(('objs', [(str(o.path.root), o.path.suffix) for o in x.creator.files]))\n"
+                "    env.trace.append(('gens', [(str(o.creator.file.path.root), o.creator.file.path.suffix) for o in x.creator.files "
+                "if o.creator.file.creator]))\n"
                 % (srcs, srcs[:2]))
         files = {}
         if d:
@@ -233,9 +262,123 @@ class ObjectCollisions(Bounded):
             return self.fail(case, raw, 'objects_stay_in_the_build_directory', objects=sorted(objs))
         if len(set(objs)) != len(objs):
             return self.fail(case, raw, 'distinct_sources_get_distinct_objects', objects=sorted(objs))
+        gens = [g for t in trace if t[0] == 'gens' for g in t[1]]
+        if any(r != 'Root.builddir' or s_.startswith('..') for r, s_ in gens) or len(set(gens)) != len(gens):
+            return self.fail(case, raw, 'distinct_sources_get_distinct_generated_sources', generated=sorted(gens))
         return True
+
+
+UNTOUCHED_BFG = """
+project('u', version='1.0')
+lib = static_library('core', files=['a/x.c', 'b/x.c'])
+exe = executable('prog', files=['main.c'], libs=[lib])
+c1 = copy_file('data/in.txt')
+c2 = copy_file('data/sym.txt', mode='symlink')
+c3 = copy_file('data/hard.txt', mode='hardlink')
+c4 = copy_file('moved/elsewhere.txt', 'data/in.txt', mode='symlink')
+gen = build_step('gen.c', cmd=['cp', source_file('tmpl.c'), 'gen.c'])
+sub = submodule('sub')
+default(exe, c1, c2, c3, c4, gen, sub['p'])
+install(exe)
+"""
+
+
+class SourceUntouched(Bounded):
+    """Configure, build, regenerate, clean, rebuild and package a generated project with the real tools (make backend),
+    for several spellings of the copy / link commands taken from the environment: after every stage the source
+    directory holds exactly the files it held before, with the same content and kind."""
+    target = 'bfg9000/tools/copy_file.py::LinkCommand.__init__'
+    properties = ('C05',)
+    reason = 'whole pipeline plus make, cc, ln, cp: runtime contract with the real tools'
+    native_chunk = 1
+    ENVS = {'default': {}, 'ln-by-path': {'SYMLINK': '/bin/ln -sf', 'HARDLINK': '/bin/ln -f'},
+            'cp-by-path': {'CP': '/bin/cp -f'}, 'builddir-inside-srcdir': {}}
+
+    def native_inputs(self, case, alphabet, maxlen, rng, extra=0):
+        for e in self.ENVS:
+            yield {'environment': e}
+
+    def native_check(self, case, raw):
+        import hashlib, os, shutil, subprocess, tempfile, time
+        from pyvc.interp import REPO
+        top = tempfile.mkdtemp(prefix='pyvc_src_')
+        try:
+            src = top + '/src'
+            b = src + '/out/b' if raw['environment'] == 'builddir-inside-srcdir' else top + '/b'
+
+            def w(rel, text):
+                fp = src + '/' + rel
+                os.makedirs(os.path.dirname(fp), exist_ok=True)
+                with open(fp, 'w') as f:
+                    f.write(text)
+            w('build.bfg', UNTOUCHED_BFG)
+            w('sub/build.bfg', "p = executable('p', files=['../main.c', 'q/main.c'])\nexport(p=p)\n")
+            for f in ('a/x.c', 'b/x.c', 'tmpl.c'):
+                w(f, 'int fn_%s(void) { return 0; }\n' % f.replace('/', '_')[:-2])
+            w('main.c', 'int main(void) { return 0; }\n')
+            w('sub/q/main.c', 'int q(void) { return 0; }\n')
+            for f in ('data/in.txt', 'data/sym.txt', 'data/hard.txt'):
+                w(f, 'content of %s\n' % f)
+            os.makedirs(top + '/bin')
+            for name, mod in (('bfg9000', 'bfg9000.driver'), ('bfg9000-depfixer', 'bfg9000.depfixer')):
+                lp = top + '/bin/' + name
+                with open(lp, 'w') as f:
+                    f.write("#!/bin/sh\nPYTHONPATH=%s exec /venv/bin/python -c 'import sys; sys.argv[0] = \"%s\"; "
+                            "from %s import main; sys.exit(main())' \"$@\"\n" % (REPO, lp, mod))
+                os.chmod(lp, 0o755)
+            env = dict(os.environ, PATH=top + '/bin:/venv/bin:' + os.environ['PATH'], **self.ENVS[raw['environment']])
+            env.pop('MAKEFLAGS', None)
+
+            def snapshot():
+                out = {}
+                for dp, dn, fn in os.walk(src):
+                    if dp == src and 'out' in dn:
+                        dn.remove('out')        # the build directory of the `builddir-inside-srcdir` case
+                    for n in dn + fn:
+                        fp = os.path.join(dp, n)
+                        rel = os.path.relpath(fp, src)
+                        if os.path.islink(fp):
+                            out[rel] = ('link', os.readlink(fp))
+                        elif os.path.isdir(fp):
+                            out[rel] = ('dir',)
+                        else:
+                            out[rel] = ('file', hashlib.sha1(open(fp, 'rb').read()).hexdigest())
+                return out
+            before = snapshot()
+
+            def stage(name, cmd):
+                r = subprocess.run(cmd, env=env, capture_output=True, text=True, timeout=300)
+                after = snapshot()
+                if after != before:
+                    diff = {k: (before.get(k), after.get(k)) for k in set(before) | set(after) if before.get(k) != after.get(k)}
+                    return self.fail(case, raw, 'source_directory_unchanged', stage=name, changed=diff)
+                if r.returncode != 0:
+                    return self.fail(case, raw, 'stage_succeeds', stage=name, output=(r.stdout + r.stderr)[-600:])
+                return None
+            stages = [('configure', [top + '/bin/bfg9000', 'configure-into', src, b, '--backend=make', '--no-resolve-packages',
+                                     '--prefix=' + top + '/prefix']),
+                      ('build', ['make', '-C', b]),
+                      ('regenerate', [top + '/bin/bfg9000', 'refresh', b]),
+                      ('rebuild', ['make', '-C', b]),
+                      ('clean', ['make', '-C', b, 'clean']),
+                      ('build-again', ['make', '-C', b]),
+                      ('package', ['make', '-C', b, 'dist-gzip'])]
+            for name, cmd in stages:
+                res = stage(name, cmd)
+                if res is not None:
+                    return res
+            # the copies and links really are in the build directory
+            for f in ('data/in.txt', 'data/sym.txt', 'data/hard.txt', 'moved/elsewhere.txt', 'gen.c', 'prog', 'sub/p'):
+                if not os.path.exists(b + '/' + f):
+                    return self.fail(case, raw, 'outputs_are_in_the_build_directory', missing=f)
+            for f, s_ in (('data/sym.txt', 'data/sym.txt'), ('moved/elsewhere.txt', 'data/in.txt'), ('data/in.txt', 'data/in.txt')):
+                if open(b + '/' + f).read() != 'content of %s\n' % s_:
+                    return self.fail(case, raw, 'copies_have_the_content_of_their_source', file=f)
+            return True
+        finally:
+            shutil.rmtree(top, ignore_errors=True)
 
 
 def registry():
     from contracts import graph
-    return [WithinDirectory(), ObjectNaming(), ObjectCollisions()] + [c for c in graph.registry() if 'C05' in c.properties]
+    return [WithinDirectory(), ObjectNaming(), ObjectCollisions(), SourceUntouched()] + [c for c in graph.registry() if 'C05' in c.properties]
